@@ -1,4 +1,5 @@
 mod c20;
+mod c22;
 mod spec;
 mod worker;
 use vkit::{Check, Level};
@@ -7,5 +8,11 @@ fn main() {
     if args.get(1).map(String::as_str) == Some("--worker") {
         worker::main(&args[2]);
     }
-    vkit::main(&[Check { id: "C20", level: Level::FaultEnumeration, run: c20::run }]);
+    if args.get(1).map(String::as_str) == Some("--lock-try") {
+        c22::lock_try(&args[2]);
+    }
+    vkit::main(&[
+        Check { id: "C20", level: Level::FaultEnumeration, run: c20::run },
+        Check { id: "C22", level: Level::ModelChecking, run: c22::run },
+    ]);
 }
